@@ -9,14 +9,14 @@ RULE = (
     'Generated trees across 1-3 buses with parallel handlers that dispatch concurrently, nested awaits, forwarding of '
     'roots and children, explicit event_parent_id on some dispatches, actor dispatches right after awaits return, and '
     'event.event_bus reads before and after forwards; in one scenario in twelve a handler fans out 52-75 children so that the bus refuses some '
-    '(back-pressure) and, optionally, waits and dispatches the refused objects again; some handlers dispatch an EXISTING event object (one that ordinary code dispatched earlier, never an ancestor) again, to a bus it has or has not visited. Oracle vs the harness own dispatch records: parent id = event of '
+    '(back-pressure) and, optionally, waits and dispatches the refused objects again; some handlers dispatch an EXISTING event object (one that ordinary code dispatched earlier, never an ancestor) again, to a bus it has or has not visited; some forward a replica (model_validate of its dump: same event_id, other object) of the event they are handling. Oracle vs the harness own dispatch records: parent id = event of '
     'the dispatching handler; listed exactly once among that handler result children and nowhere else; actor events '
     'have no parent; explicit parents survive; no event is its own parent/child; event_bus is the running bus. '
     'Non-trivial = >= 1 handler dispatch and (a parallel bus, or >= 2 buses, or forwarding); distinct by canonical JSON.'
 )
 ASSUMPTIONS = ['virtual time', 'harness lineage = which handler invocation called dispatch']
 
-P = Profile(hredisp=0.12, fan=0.08, par=0.4, fwd=0.5, xp=0.12, readbus=0.2, actor_ops=['disp', 'disp', 'dispany', 'sleep', 'await', 'yield', 'burst'], maxdepth=[2, 3], wild=0.25, raises=0.1, dual=0.1)
+P = Profile(fwdreplica=0.1, hredisp=0.12, fan=0.08, par=0.4, fwd=0.5, xp=0.12, readbus=0.2, actor_ops=['disp', 'disp', 'dispany', 'sleep', 'await', 'yield', 'burst'], maxdepth=[2, 3], wild=0.25, raises=0.1, dual=0.1)
 
 
 def budget(tier):
@@ -42,6 +42,8 @@ def classes(F):
         cl.append('explicit-parent')
     if any(r['k'] == 'disp' and not isinstance(r['by'], str) and r.get('ok') is False for r in F.tr):
         cl.append('in-handler-dispatch-refused')
+    if any(r['k'] == 'disp' and r.get('rep') and r.get('ok') for r in F.tr):
+        cl.append('handler-forwards-a-replica-of-its-own-event')
     for r in F.tr:
         if r['k'] == 'disp' and r.get('hre') and r.get('ok'):
             cl.append('existing-object-dispatched-again-by-a-handler' + (':bus-already-in-path' if r.get('in_path') else ':new-bus'))
